@@ -8,7 +8,7 @@ import (
 
 func init() {
 	register(&propCheck{id: "C12", needRoot: true, run: checkC12,
-		explanation: "Decided statically (narrow; necessary conditions only): (1) PASS — every new node that is given a node key at commit is queued for saving, and the save loop visits every queued node (otherwise a retained version misses a node); (2) PASS — the orphan callback of deleteVersion issues a deletion for every orphan it is handed unless it returns an error (otherwise unreachable nodes are left behind); (3) FLOW — the rollback range delete covers exactly [fromVersion, latest+1) of the node key-space; (4) PASS — the fast-index maintenance at commit saves every pending addition and deletes every pending removal, and the collecting callbacks never stop early. Added in the build round: shared subtrees are recognised by hash and a shared root stays stored while it is re-keyed (DOM-shared-by-hash, ORDER-rekey); the orphan callback deletes the orphan's OWN storage key (not only a legacy alias) on every success path; rollback reaches the index rebuild that drops the index entries of erased versions. NOT decided: that the set of stored nodes EQUALS the set reachable from retained versions over histories (needs the orphan diff to be value-correct and a reachability audit of real databases)."})
+		explanation: "Decided statically (narrow; necessary conditions only): (1) PASS — every new node that is given a node key at commit is queued for saving, and the save loop visits every queued node (otherwise a retained version misses a node); (2) PASS — the orphan callback of deleteVersion issues a deletion for every orphan it is handed unless it returns an error (otherwise unreachable nodes are left behind); (3) FLOW — the rollback range delete covers exactly [fromVersion, latest+1) of the node key-space; (4) PASS — the fast-index maintenance at commit saves every pending addition and deletes every pending removal, and the collecting callbacks never stop early. Added in the build round: shared subtrees are recognised by hash and a shared root stays stored while it is re-keyed (DOM-shared-by-hash, ORDER-rekey); the orphan callback deletes the orphan's OWN storage key (not only a legacy alias) on every success path; rollback reaches the index rebuild that drops the index entries of erased versions. NOT decided: that the set of stored nodes EQUALS the set reachable from retained versions over histories (needs the orphan diff to be value-correct and a reachability audit of real databases). Rules added in the later seeding rounds (each listed with what it decides in this file's rule table) are described in DESIGN.md §3 \"Third and fourth seeding rounds\" and Appendix C3–C5."})
 }
 
 // loopBodyMustPass: in the innermost loop containing an instruction
